@@ -3,6 +3,7 @@ package rules
 import (
 	"fmt"
 	"go/token"
+	"go/types"
 	"sort"
 	"strings"
 
@@ -29,11 +30,33 @@ func init() {
 // searchSkeleton describes every key comparison of fn and its closures.
 func searchSkeleton(c *Ctx, fn *ssa.Function) []string {
 	var out []string
-	fns := append([]*ssa.Function{fn}, allAnon(fn)...)
+	// the function, its closures, and the helpers it calls directly (a shared search helper makes the
+	// two siblings agree by construction)
+	seenF := map[*ssa.Function]bool{}
+	var fns []*ssa.Function
+	var add func(f *ssa.Function, depth int)
+	add = func(f *ssa.Function, depth int) {
+		if f == nil || seenF[f] || f.Blocks == nil {
+			return
+		}
+		seenF[f] = true
+		fns = append(fns, f)
+		for _, a := range f.AnonFuncs {
+			add(a, depth)
+		}
+		if depth < 2 {
+			for _, ci := range CallsOf(f) {
+				if sc := ci.Common().StaticCallee(); sc != nil && sc != fn && sc.Pkg == fn.Pkg && sc.Name() != fn.Name() && !c.Facts.MayLoad[sc] {
+					add(sc, depth+1)
+				}
+			}
+		}
+	}
+	add(fn, 0)
 	for _, f := range fns {
 		for _, ci := range CallsOf(f) {
 			call, ok := ci.(*ssa.Call)
-			if !ok || !strings.HasPrefix(c.Facts.External(ci), "callback:keyOrder") {
+			if !ok || !isKeyCompareCall(call) {
 				continue
 			}
 			var args []string
@@ -75,15 +98,14 @@ func keyArgClass(a ssa.Value) string {
 	case *ssa.UnOp:
 		if x.Op == token.MUL {
 			if ia, ok := x.X.(*ssa.IndexAddr); ok {
-				if _, f, ok := nodeSliceRoot(ia.X); ok {
-					idx := "i"
-					if b, ok := ia.Index.(*ssa.BinOp); ok {
-						if k, isK := ir.ConstInt(b.Y); isK {
-							idx = fmt.Sprintf("i%s%d", b.Op, k)
-						}
+				// an element of the node's key list (directly, or of a slice parameter it was passed as)
+				idx := "i"
+				if b, ok := ia.Index.(*ssa.BinOp); ok {
+					if k, isK := ir.ConstInt(b.Y); isK {
+						idx = fmt.Sprintf("i%s%d", b.Op, k)
 					}
-					return "node." + f + "[" + idx + "]"
 				}
+				return "keys[" + idx + "]"
 			}
 			if _, ok := x.X.(*ssa.FreeVar); ok {
 				return "probe"
@@ -254,4 +276,24 @@ func runPARSLICE(c *Ctx) {
 		c.Violation(k.fn, P.InstrPos(at), "Key and Value of "+pathDesc(k.base)+" sliced with different bounds",
 			fmt.Sprintf("Key only: %v, Value only: %v — entries would pair keys with the values of other keys", onlyK, onlyV))
 	}
+}
+
+// isKeyCompareCall: a call through a function value of the KeyCompare shape,
+// func(_, _ interface{}) (int, error).
+func isKeyCompareCall(call *ssa.Call) bool {
+	if call.Call.IsInvoke() || call.Call.StaticCallee() != nil {
+		return false
+	}
+	sig := call.Call.Signature()
+	if sig.Params().Len() != 2 || sig.Results().Len() != 2 {
+		return false
+	}
+	for i := 0; i < 2; i++ {
+		it, ok := sig.Params().At(i).Type().Underlying().(*types.Interface)
+		if !ok || it.NumMethods() != 0 {
+			return false
+		}
+	}
+	b, ok := sig.Results().At(0).Type().Underlying().(*types.Basic)
+	return ok && b.Kind() == types.Int && ir.IsErrorType(sig.Results().At(1).Type())
 }
